@@ -315,6 +315,7 @@ def c14_rf16f(run):
     rf_proto.rf16d(run)
     run.min_instances('RF16d', 8)
     rf_flow.rf53(run)
+    rf_proto.rf76(run)
 
 
 def c02_rf7a(run):
